@@ -100,6 +100,8 @@ type emitSummary struct {
 	// Res: for a function with a single boolean result (a "handled" flag), the range of effective reply acts on
 	// the paths returning true / false. A caller that branches on the result uses the range of the side it is on.
 	Res map[bool]*[2]int
+	// ErrSided: Res is keyed by the error result instead (true = the side returning a nil error)
+	ErrSided bool
 }
 
 // actKind classifies call c as a reply act ("" if none), using summaries for module callees.
@@ -124,7 +126,23 @@ func (cx *Ctx) actKindOn(c ssa.CallInstruction, stack map[*ssa.Function]bool, p 
 	}
 	s := cx.emitSummaryOf(f, stack)
 	if call, ok := c.(*ssa.Call); ok && p != nil && s.Decided && s.Res != nil && !(s.Min == 1 && s.Max == 1) {
-		if side, tested := pathPolarityOf(p, call); tested {
+		side, tested := pathPolarityOf(p, call)
+		if s.ErrSided {
+			side, tested = false, false
+			if e, has, _ := errResult(call); has && e != nil {
+				al := cx.Fx.aliasesOf(e)
+				for _, cp := range p.Conds {
+					if x, tnn, isNT := nilTest(cp.Cond); isNT {
+						for _, a := range al {
+							if a == x {
+								side, tested = cp.Pol != tnn, true
+							}
+						}
+					}
+				}
+			}
+		}
+		if tested {
 			if rg := s.Res[side]; rg != nil {
 				switch {
 				case rg[1] == 0:
@@ -170,6 +188,11 @@ func (cx *Ctx) emitSummaryOf(fn *ssa.Function, stack map[*ssa.Function]bool) *em
 			boolOnly = true
 		}
 	}
+	errLast := false
+	if res := fn.Signature.Results(); res.Len() > 0 && isErrorType(res.At(res.Len()-1).Type()) {
+		errLast = true
+	}
+	s.ErrSided = errLast && !boolOnly
 	for _, p := range paths {
 		ep := cx.emitAlong(p, stack)
 		n := ep.count()
@@ -193,6 +216,86 @@ func (cx *Ctx) emitSummaryOf(fn *ssa.Function, stack map[*ssa.Function]bool) *em
 			s.Max = hi
 		}
 		s.Paths = append(s.Paths, ep)
+		// a function whose last result is an error: true = the side that returns nil. An act whose own error is what
+		// the path returns (`return tmpl.Execute(w, data)`) succeeded on the nil side and failed on the other.
+		if errLast && !boolOnly {
+			ret := p.Return()
+			var rv ssa.Value
+			if ret != nil && len(ret.Results) > 0 {
+				rv = ret.Results[len(ret.Results)-1]
+			}
+			sides := []bool{true, false}
+			switch {
+			case rv == nil:
+			case isNilConst(rv):
+				sides = []bool{true}
+			case isFreshError(rv):
+				sides = []bool{false}
+			default:
+				for _, cp := range p.Conds {
+					if x, tnn, isNT := nilTest(cp.Cond); isNT {
+						for _, a := range cx.Fx.aliasesOf(rv) {
+							if a == x || x == rv {
+								sides = []bool{cp.Pol != tnn} // found nil on the path -> nil side
+							}
+						}
+					}
+				}
+			}
+			for _, side := range sides {
+				slo, shi := lo, hi
+				for i, a := range ep.Acts {
+					call, isCall := a.Call.(*ssa.Call)
+					if !isCall || ep.Failed[i] || rv == nil {
+						continue
+					}
+					e, has, _ := errResult(call)
+					if !has || e == nil {
+						continue
+					}
+					returned := e == rv
+					for _, al := range cx.Fx.aliasesOf(e) {
+						if al == rv {
+							returned = true
+						}
+					}
+					if !returned || len(sides) == 1 {
+						continue
+					}
+					// this act's verdict is the path's verdict: take its contribution out and put the side's in
+					l, h := 1, 1
+					if strings.HasPrefix(a.Kind, "reply") && !strings.HasPrefix(a.Kind, "reply1:") {
+						fmt.Sscanf(a.Kind, "reply%d..%d:", &l, &h)
+					}
+					slo, shi = slo-l, shi-h
+					if f := cx.moduleCallee(a.Call); f != nil {
+						if cs := cx.emitSummaryOf(f, stack); cs.Res != nil && cs.Res[side] != nil {
+							slo, shi = slo+cs.Res[side][0], shi+cs.Res[side][1]
+							continue
+						}
+					}
+					if side {
+						slo, shi = slo+1, shi+1
+					}
+				}
+				if slo < 0 {
+					slo = 0
+				}
+				if s.Res == nil {
+					s.Res = map[bool]*[2]int{}
+				}
+				if rg := s.Res[side]; rg == nil {
+					s.Res[side] = &[2]int{slo, shi}
+				} else {
+					if slo < rg[0] {
+						rg[0] = slo
+					}
+					if shi > rg[1] {
+						rg[1] = shi
+					}
+				}
+			}
+		}
 		if boolOnly {
 			sides := []bool{true, false}
 			if v, known := pathBoolResult(&p); known {
